@@ -68,6 +68,8 @@ type c01GenConf struct {
 	Gen           uint32         `json:"gen"`
 	Groups        []c01ref.Group `json:"groups"`
 	ExplicitFalse bool           `json:"explicit_false,omitempty"` // write "RandomizeDstPort = false" instead of omitting it
+	// how a group WITHOUT subnets is written in the station's file: "" = no Subnets key, "array" = "Subnets = []"
+	EmptyStyle string `json:"empty_style,omitempty"`
 }
 
 type c01Case struct {
@@ -156,6 +158,12 @@ func c01TOML(conf []c01GenConf) string {
 			} else if g.ExplicitFalse {
 				sb.WriteString("            RandomizeDstPort = false\n")
 			}
+			if len(grp.Subnets) == 0 {
+				if g.EmptyStyle == "array" {
+					sb.WriteString("            Subnets = []\n")
+				}
+				continue
+			}
 			qs := make([]string, len(grp.Subnets))
 			for i, s := range grp.Subnets {
 				qs[i] = fmt.Sprintf("%q", s)
@@ -175,7 +183,26 @@ func c01ClientList(g *c01GenConf) *pb.PhantomSubnetsList {
 		}
 		l.WeightedSubnets = append(l.WeightedSubnets, ps)
 	}
-	return l
+	// the client gets the list inside a ClientConf protobuf: take it through the wire form
+	b, err := proto.Marshal(l)
+	if err != nil {
+		panic(err)
+	}
+	out := &pb.PhantomSubnetsList{}
+	if err := proto.Unmarshal(b, out); err != nil {
+		panic(err)
+	}
+	return out
+}
+
+// emptyWeighted reports whether the generation holds a group without subnets but with weight.
+func (g *c01GenConf) emptyWeighted() bool {
+	for _, grp := range g.Groups {
+		if len(grp.Subnets) == 0 && grp.Weight > 0 {
+			return true
+		}
+	}
+	return false
 }
 
 // c01CaptureConn records what a client transport writes; reads fail at once (so obfs4's Dial
@@ -612,6 +639,36 @@ func c01IPStr(b []byte) string {
 // c01Judge applies the oracle. It returns the classes of the case, whether it is non-trivial and the
 // violations (at most one per field, in causal order).
 func c01Judge(env *c01Env, c *c01Case, o *c01Out) (classes []string, nontrivial bool, viols []c01Viol) {
+	classes, nontrivial, viols = c01JudgeRaw(env, c, o)
+	app := c.applicable()
+	if app == nil || !app.emptyWeighted() {
+		return
+	}
+	// The generation holds a retired group (weight, no subnets). Deployed clients read the list from a
+	// protobuf, see nil and leave the group and its weight out. Selection / port disagreements of such
+	// cases get their own root-cause keys: by selection era and by how the station's file spells the
+	// empty group.
+	cause := "emptygroup:hkdf"
+	if c.LibVer < 2 {
+		cause = "emptygroup:legacy"
+	}
+	classes = append(classes, cause)
+	if app.EmptyStyle == "array" && c.LibVer >= 2 {
+		// (the legacy station path does not look at the subnets at all: one cause whatever the spelling)
+		cause += ":toml-empty-array"
+		classes = append(classes, cause)
+	}
+	for i := range viols {
+		k := viols[i].Key
+		if strings.HasPrefix(k, "select:") || strings.HasPrefix(k, "ip:") || strings.HasPrefix(k, "randflag:") || strings.HasPrefix(k, "port:") {
+			viols[i].Key = cause
+			viols[i].Msg = "generation with a weighted group that lists no subnets (clients ignore it and its weight): " + viols[i].Msg
+		}
+	}
+	return
+}
+
+func c01JudgeRaw(env *c01Env, c *c01Case, o *c01Out) (classes []string, nontrivial bool, viols []c01Viol) {
 	add := func(k, f string, a ...any) { viols = append(viols, c01Viol{k, fmt.Sprintf(f, a...)}) }
 	lv := fmt.Sprintf("libver%d", c.LibVer)
 	if c.LibVer > 4 {
@@ -965,6 +1022,15 @@ func c01GenGroups(rt *rapid.T) []c01ref.Group {
 	if total == 0 {
 		groups[0].Weight = 1 // zero total weight is undefined (C14) — never generated
 	}
+	// retired groups: an entry (usually with weight) whose subnets are gone, at any position
+	if rapid.IntRange(0, 3).Draw(rt, "withempty") == 0 {
+		ne := rapid.IntRange(1, 2).Draw(rt, "nempty")
+		for k := 0; k < ne; k++ {
+			pos := rapid.IntRange(0, len(groups)).Draw(rt, "emptypos")
+			e := c01ref.Group{Weight: rapid.SampledFrom([]uint32{5, 1, 9, 2, 1000, 0}).Draw(rt, "emptyw"), Randomize: rapid.Bool().Draw(rt, "emptyrand")}
+			groups = append(groups[:pos], append([]c01ref.Group{e}, groups[pos:]...)...)
+		}
+	}
 	return groups
 }
 
@@ -976,7 +1042,7 @@ func c01GenCase(rt *rapid.T) c01Case {
 
 	// station configuration: 1-2 generations
 	gens := rapid.SampledFrom([]uint32{0, 1, 2, 957, 1164, 65535, 4294967295}).Draw(rt, "gen0")
-	conf := c01GenConf{Gen: gens, ExplicitFalse: rapid.Bool().Draw(rt, "explicitfalse")}
+	conf := c01GenConf{Gen: gens, ExplicitFalse: rapid.Bool().Draw(rt, "explicitfalse"), EmptyStyle: rapid.SampledFrom([]string{"", "array"}).Draw(rt, "emptystyle")}
 	if rapid.IntRange(0, 19).Draw(rt, "shipped") == 0 {
 		conf.Groups = append([]c01ref.Group(nil), c01Shipped...)
 	} else {
@@ -1062,6 +1128,7 @@ var c01RequiredDerive = []string{
 	"transport:min", "transport:obfs4", "transport:prefix", "transport:dtls",
 	"port:random-granted", "port:refused-by-subnet", "port:refused-by-libver", "port:not-asked",
 	"v4", "v6", "client-keygen", "multi-group",
+	"emptygroup:hkdf", "emptygroup:hkdf:toml-empty-array", "emptygroup:legacy",
 }
 
 func TestVerif_C01_derive(t *testing.T) {
